@@ -1145,9 +1145,21 @@ class Scenario:
                         self._expect = (p, v.rx, cid)
                         break
 
-    def _live_ids(self, v):
+    def _live_ids(self, v, proto=None):
         ids = {v.first_dcid, v.host_cid0}
         ids.update(v.issued)
+        if proto is not None:
+            # An ID counts as issued from the moment its NEW_CONNECTION_ID frame was put into a datagram (hooked state:
+            # the connection's own list of host IDs, flag was_sent) — not only once the adapter got round to processing
+            # the ConnectionIdIssued event: the peer may use the ID as soon as it has the frame.
+            try:
+                for c in proto._quic._host_cids:
+                    if c.was_sent:
+                        ids.add(bytes(c.cid))
+                        if bytes(c.cid) not in v.issued and bytes(c.cid) != v.host_cid0:
+                            self.count("routing_ids_on_the_wire_before_their_event_was_processed")
+            except AttributeError:
+                pass
         ids.discard(None)
         return ids - v.retired
 
@@ -1193,7 +1205,7 @@ class Scenario:
                 continue
             if self.server_closed:
                 continue
-            for cid in self._live_ids(v):
+            for cid in self._live_ids(v, p):
                 if table.get(cid) is not p:
                     kind = self._cid_kind(v, cid)
                     self.violation(
